@@ -58,6 +58,19 @@ func exprString(e ast.Expr) string {
 	return "?"
 }
 
+// exprString2 renders binary expressions as well (operands, operator, parentheses dropped).
+func exprString2(e ast.Expr) string {
+	switch x := e.(type) {
+	case *ast.BinaryExpr:
+		return exprString2(x.X) + " " + x.Op.String() + " " + exprString2(x.Y)
+	case *ast.ParenExpr:
+		return "(" + exprString2(x.X) + ")"
+	case *ast.UnaryExpr:
+		return x.Op.String() + exprString2(x.X)
+	}
+	return exprString(e)
+}
+
 func leanStr(s string) string { return fmt.Sprintf("%q", s) }
 
 func leanList(xs []string) string {
@@ -157,6 +170,8 @@ func mentions(e ast.Node, what string) bool {
 	return hit
 }
 
+var planKeyDecls []*ast.FuncDecl
+
 func fail(msg string) {
 	fmt.Fprintln(os.Stderr, "c19extract:", msg)
 	os.Exit(1)
@@ -187,6 +202,8 @@ func main() {
 			case *ast.FuncDecl:
 				if x.Recv == nil {
 					p.funcs[x.Name.Name] = x
+				} else if x.Name.Name == "planKey" {
+					planKeyDecls = append(planKeyDecls, x)
 				}
 			case *ast.GenDecl:
 				for _, sp := range x.Specs {
@@ -553,6 +570,140 @@ func main() {
 		})
 	}
 
+	// ---- the source-count guards of resume
+	// validateCompletedDumpSources: `if snapshot.NodeCount != graphEntry.NodeCount || snapshot.EdgeCount != graphEntry.EdgeCount { return error }`
+	completedGuard := "not-found"
+	if vf := p.funcs["validateCompletedDumpSources"]; vf != nil {
+		ast.Inspect(vf.Body, func(n ast.Node) bool {
+			ifs, ok := n.(*ast.IfStmt)
+			if !ok || ifs.Init != nil {
+				return true
+			}
+			if !strings.Contains(exprString2(ifs.Cond), "NodeCount") {
+				return true
+			}
+			returnsErr := false
+			for _, st := range ifs.Body.List {
+				if r, ok := st.(*ast.ReturnStmt); ok && len(r.Results) == 1 && exprString(r.Results[0]) != "nil" {
+					returnsErr = true
+				}
+			}
+			if returnsErr {
+				completedGuard = exprString2(ifs.Cond)
+			}
+			return true
+		})
+	}
+	// dumpGraph: `if checkpoint.HasSnapshot { if checkpoint.Snapshot != currentSnapshot { return error } }` (struct comparison: both counts)
+	currentGuard := "not-found"
+	if dg := p.funcs["dumpGraph"]; dg != nil {
+		ast.Inspect(dg.Body, func(n ast.Node) bool {
+			ifs, ok := n.(*ast.IfStmt)
+			if !ok {
+				return true
+			}
+			c := exprString2(ifs.Cond)
+			if strings.Contains(c, "Snapshot") && strings.Contains(c, "currentSnapshot") {
+				for _, st := range ifs.Body.List {
+					if r, ok := st.(*ast.ReturnStmt); ok && len(r.Results) > 0 && exprString(r.Results[len(r.Results)-1]) != "nil" {
+						currentGuard = c
+					}
+				}
+			}
+			return true
+		})
+	}
+	snapshotFields := []string{}
+	for _, f := range p.fields("graphEntitySnapshot") {
+		for _, n := range f.Names {
+			snapshotFields = append(snapshotFields, n.Name)
+		}
+	}
+
+	// ---- the resume-time directory walk: which entries are skipped without being checked
+	var walkSkips []string
+	walkFound := false
+	if vf := p.funcs["validateDumpCheckpointFiles"]; vf != nil {
+		ast.Inspect(vf.Body, func(n ast.Node) bool {
+			call, ok := n.(*ast.CallExpr)
+			if !ok || exprString(call.Fun) != "filepath.WalkDir" || len(call.Args) != 2 {
+				return true
+			}
+			lit, ok := call.Args[1].(*ast.FuncLit)
+			if !ok {
+				return true
+			}
+			walkFound = true
+			for _, st := range lit.Body.List {
+				ifs, ok := st.(*ast.IfStmt)
+				if !ok || len(ifs.Body.List) != 1 {
+					continue
+				}
+				if r, ok := ifs.Body.List[0].(*ast.ReturnStmt); ok && len(r.Results) == 1 && exprString(r.Results[0]) == "nil" {
+					walkSkips = append(walkSkips, exprString2(ifs.Cond))
+				}
+			}
+			return true
+		})
+	}
+	if !walkFound {
+		walkSkips = append(walkSkips, "walk-not-found")
+	}
+
+	// ---- the scrubber's per-key plan cache: the cached plan must be a function of the cache key only
+	planCacheKey, planNormalizedFrom := "not-found", "not-found"
+	var planFieldsFromRaw []string
+	for _, d := range planKeyDecls {
+		rawParam := ""
+		if len(d.Type.Params.List) == 1 && len(d.Type.Params.List[0].Names) == 1 {
+			rawParam = d.Type.Params.List[0].Names[0].Name
+		}
+		var ps []ast.Stmt
+		flatten(d.Body, &ps)
+		cacheKeys := map[string]bool{}
+		for _, st := range ps {
+			as, ok := st.(*ast.AssignStmt)
+			if !ok {
+				continue
+			}
+			// normalized := normalizeKey(key)
+			if as.Tok == token.DEFINE && len(as.Lhs) == 1 && len(as.Rhs) == 1 {
+				if call, ok := as.Rhs[0].(*ast.CallExpr); ok && exprString(call.Fun) == "normalizeKey" {
+					planNormalizedFrom = exprString(as.Lhs[0]) + ":=" + exprString(as.Rhs[0])
+				}
+			}
+			// every use of the cache map: s.propertyPlans[<key>] on either side
+			for _, e := range append(append([]ast.Expr{}, as.Lhs...), as.Rhs...) {
+				ast.Inspect(e, func(n ast.Node) bool {
+					if ix, ok := n.(*ast.IndexExpr); ok && strings.HasSuffix(exprString(ix.X), ".propertyPlans") {
+						cacheKeys[exprString(ix.Index)] = true
+					}
+					return true
+				})
+			}
+			// plan.<field> = <expr mentioning the raw parameter>
+			for k, lhs := range as.Lhs {
+				l := exprString(lhs)
+				if !strings.HasPrefix(l, "plan.") {
+					continue
+				}
+				rhs := as.Rhs[0]
+				if k < len(as.Rhs) {
+					rhs = as.Rhs[k]
+				}
+				if rawParam != "" && mentions(rhs, rawParam) {
+					planFieldsFromRaw = append(planFieldsFromRaw, strings.TrimPrefix(l, "plan."))
+				}
+			}
+		}
+		keys := []string{}
+		for k := range cacheKeys {
+			keys = append(keys, k)
+		}
+		sort.Strings(keys)
+		planCacheKey = strings.Join(keys, ",")
+	}
+
 	var out strings.Builder
 	out.WriteString("/- GENERATED by tools/extract/c19 from retriever/*.go on every check run. Do not edit. -/\nnamespace Dawgs.Generated.C19\n\n")
 	fmt.Fprintf(&out, "/-- fields of `DumpOptions` -/\ndef optionFields : List String := %s\n\n", leanList(optionFields))
@@ -569,6 +720,10 @@ func main() {
 	fmt.Fprintf(&out, "def saltParamIntoConfig : String := %s\ndef readerIntoConfig : String := %s\n\n", leanStr(saltParamIntoConfig), leanStr(readerIntoConfig))
 	fmt.Fprintf(&out, "/-- resume compares the two identity values as a whole (reflect.DeepEqual) -/\ndef comparesWholeIdentity : Bool := %s\n", leanBool(comparesWhole))
 	fmt.Fprintf(&out, "/-- `Dump` computes the expected identity from the options of the current call and hands it to the resume check -/\ndef identityFromCurrentOptions : Bool := %s\ndef resumeUsesThatIdentity : Bool := %s\n", leanBool(identityFromCurrentOptions), leanBool(resumeUsesThatIdentity))
+	fmt.Fprintf(&out, "\n/-- the refusal guard of `validateCompletedDumpSources` (operands, comparison operators and connective as written) -/\ndef completedSourceGuard : String := %s\n", leanStr(completedGuard))
+	fmt.Fprintf(&out, "/-- the refusal guard on the in-progress graph's snapshot in `dumpGraph` (a comparison of the whole snapshot struct) and the struct's fields -/\ndef currentSourceGuard : String := %s\ndef snapshotFields : List String := %s\n", leanStr(currentGuard), leanList(snapshotFields))
+	fmt.Fprintf(&out, "\n/-- conditions under which the resume-time walk of the output directory skips an entry unchecked -/\ndef walkSkips : List String := %s\n", leanList(walkSkips))
+	fmt.Fprintf(&out, "\n/-- the scrubber's plan cache (`planKey`): the expression(s) indexing the cache, where the normalised key comes from, and the plan fields computed from the RAW key -/\ndef planCacheKey : String := %s\ndef planNormalizedFrom : String := %s\ndef planFieldsFromRawKey : List String := %s\n", leanStr(planCacheKey), leanStr(planNormalizedFrom), leanList(planFieldsFromRaw))
 	out.WriteString("\nend Dawgs.Generated.C19\n")
 	if err := os.WriteFile(os.Args[2], []byte(out.String()), 0o644); err != nil {
 		fail(err.Error())
